@@ -209,6 +209,43 @@ fn subtree<C: RefCfg>(leaves: &[RLeaf]) -> (RLabel, D) {
     (p, C::parent(&lv, &ll, &rv, &rl))
 }
 
+/// Value of the subtree over `leaves` as its parent sees it (None for an empty set).
+pub fn ref_subtree<C: RefCfg>(leaves: &[RLeaf]) -> Option<(RLabel, D)> {
+    if leaves.is_empty() {
+        None
+    } else {
+        Some(subtree::<C>(leaves))
+    }
+}
+
+/// Value stored in the root node (before the final root-hash step).
+pub fn ref_root_val<C: RefCfg>(leaves: &[RLeaf]) -> D {
+    if leaves.is_empty() {
+        return C::empty_root_value();
+    }
+    let (mut left, mut right) = (vec![], vec![]);
+    for l in leaves {
+        if l.label.len == 0 {
+            continue;
+        }
+        if l.label.bit(0) == 0 {
+            left.push(l.clone());
+        } else {
+            right.push(l.clone());
+        }
+    }
+    let side = |v: &Vec<RLeaf>| -> (RLabel, D) {
+        if v.is_empty() {
+            (C::empty_label(), C::empty_node())
+        } else {
+            subtree::<C>(v)
+        }
+    };
+    let (ll, lv) = side(&left);
+    let (rl, rv) = side(&right);
+    C::parent(&lv, &ll, &rv, &rl)
+}
+
 /// Root digest of the canonical tree: the root always has the empty bit string as label,
 /// even when all leaves share a longer prefix (then it has one real child and one placeholder).
 pub fn ref_root<C: RefCfg>(leaves: &[RLeaf]) -> D {
